@@ -155,6 +155,10 @@ def import_from_sympy_latex(expr_string: str,
                 base = Amplitude(name, upper, lower)
             elif name == tensor_names.coulomb:  # eri in chemist notation
                 base = SymmetricTensor(name, upper, lower)
+            elif name == tensor_names.sym_orb_denom:
+                # symbolic orbital energy denominator: built as
+                # SymmetricTensor by EriOrbenergy.symbolic_denominator
+                base = SymmetricTensor(name, upper, lower)
             else:
                 base = AntiSymmetricTensor(name, upper, lower)
         elif len(indices) == 1:  # nonsymtensor
